@@ -369,7 +369,7 @@ def runLine (line : String) : String :=
     let qws := rest.filter (·.startsWith "q:")
     let ews := rest.filter (fun w => !(w.startsWith "q:"))
     let qs := qws.filterMap fun w => parseName ("name:" ++ (w.drop 2).toString)
-    let okFlags := flags.length ≥ 1 && flags.length ≤ 4 && flags.toList.all (fun ch => "vnsftm".toList.contains ch)
+    let okFlags := flags.length ≥ 1 && flags.length ≤ 5 && flags.toList.all (fun ch => "vnsftme".toList.contains ch)
     if okFlags && qs.length == qws.length && qs.length ≥ 1 && qs.length ≤ 12 && ews.length ≥ 1 && ews.length < 61
         && (rest.getLast!).startsWith "name:" then
       match modeOf m, parseName (ews.getLast!), parseEntries ews.dropLast ⟨[], []⟩ with
@@ -396,6 +396,7 @@ def runLine (line : String) : String :=
         "calls=" ++ ",".intercalate outs
       | _, _, _ => "bad-op"
     else "bad-op"
+  | ["noise", k] => if k == "1" || k == "2" || k == "3" then "ok" else "bad-op"   -- frame: no effect
   | ["cnew"] => "ok"
   | ["creset"] => "ok"
   | ["cfail", m, nm] =>
